@@ -845,6 +845,8 @@ func (cv *Conv) Exec(e *Edge) (divs []evid.Div, fatal error) {
 			if !d.Closed {
 				// the LMTP status collector lives exactly as long as the chunked transfer
 				chk("collector", s.Collector, e.Cfg.Lmtp && d.Bdat != "none")
+				// an over-long line ends the connection: the condition is never left standing
+				chk("tooLong", s.TooLong, false)
 			}
 			if len(diffs) > 0 {
 				j := strings.Join(diffs, " ")
@@ -857,7 +859,7 @@ func (cv *Conv) Exec(e *Edge) (divs []evid.Div, fatal error) {
 						props["C09"] = true // what counts as a protected connection decides whether AUTH is allowed
 					case "didAuth":
 						props["C09"] = true
-					case "errCount", "lineLimit":
+					case "errCount", "lineLimit", "tooLong":
 						props["C19"] = true
 					case "bytes":
 						props["C06"] = true // the size accounting of the chunked transfer
